@@ -160,3 +160,81 @@ package container
 //@     invariant 0 <= @i && @i <= len(key) && hash == sliceHash(key, @i)
 //@   loop 2:
 //@     invariant 0 <= @i && @i <= len(s.data[hash]) && hash == sliceHash(key, len(key)) && s.size == old(s.size)
+
+// ---- bit sets (mode bv: machine integers are bit-vectors of their width) ----
+
+// bit(b, i): bit i of the set; i ranges over 0..32*len(b)
+//@ spec func bit(b BitSet, i int) bool = (b[i >> 5] & (uint32(1) << uint32(i & 31))) != 0
+
+//@ func BitSet.Get
+//@   mode bv
+//@   requires 0 <= i && i / 32 < len(b)
+//@   ensures result == bit(b, i)
+
+//@ func BitSet.Set
+//@   mode bv
+//@   requires 0 <= i && i / 32 < len(b)
+//@   modifies b[0:len(b)]
+//@   ensures bit(b, i)
+//@   ensures forall j in 0..32*len(b) :: j != i ==> (bit(b, j) == old(bit(b, j)))
+
+//@ func BitSet.Clear
+//@   mode bv
+//@   requires 0 <= i && i / 32 < len(b)
+//@   modifies b[0:len(b)]
+//@   ensures !bit(b, i)
+//@   ensures forall j in 0..32*len(b) :: j != i ==> (bit(b, j) == old(bit(b, j)))
+
+//@ func BitSet.SetAll
+//@   mode bv
+//@   requires 0 <= n && n <= 32*len(b)
+//@   modifies b[0:len(b)]
+//@   ensures forall j in 0..n :: bit(b, j)
+//@   ensures forall j in n..32*len(b) :: bit(b, j) == old(bit(b, j))
+//@   loop 1:
+//@     invariant 0 <= i && i <= size && size == n / 32
+//@     invariant forall j in 0..32*i :: bit(b, j)
+//@     invariant forall j in 32*i..32*len(b) :: bit(b, j) == old(bit(b, j))
+
+//@ func BitSet.ClearAll
+//@   mode bv
+//@   requires 0 <= n && n <= 32*len(b)
+//@   modifies b[0:len(b)]
+//@   ensures forall j in 0..n :: !bit(b, j)
+//@   ensures forall j in n..32*len(b) :: bit(b, j) == old(bit(b, j))
+//@   loop 1:
+//@     invariant 0 <= i && i <= size && size == n / 32
+//@     invariant forall j in 0..32*i :: !bit(b, j)
+//@     invariant forall j in 32*i..32*len(b) :: bit(b, j) == old(bit(b, j))
+
+//@ func BitSet.Complement
+//@   mode bv
+//@   requires 0 <= n && n <= 32*len(b)
+//@   modifies b[0:len(b)]
+//@   ensures forall j in 0..n :: bit(b, j) == !old(bit(b, j))
+//@   ensures forall j in n..32*len(b) :: bit(b, j) == old(bit(b, j))
+//@   loop 1:
+//@     invariant 0 <= i && i <= size && size == n / 32
+//@     invariant forall j in 0..32*i :: bit(b, j) == !old(bit(b, j))
+//@     invariant forall j in 32*i..32*len(b) :: bit(b, j) == old(bit(b, j))
+
+//@ func BitSet.Or
+//@   mode bv
+//@   requires len(b) == len(other) && disjoint(b, other)
+//@   modifies b[0:len(b)]
+//@   ensures forall j in 0..32*len(b) :: bit(b, j) == (old(bit(b, j)) || old(bit(other, j)))
+//@   loop 1:
+//@     invariant 0 <= @i && @i <= len(other)
+//@     invariant forall j in 0..32*@i :: bit(b, j) == (old(bit(b, j)) || old(bit(other, j)))
+//@     invariant forall j in 32*@i..32*len(b) :: bit(b, j) == old(bit(b, j))
+//@     invariant forall j in 32*@i..32*len(b) :: bit(other, j) == old(bit(other, j))
+
+//@ func BitSet.NextZero
+//@   mode bv
+//@   requires 0 <= start && start / 32 < len(b)
+//@   ensures start <= result && result <= 32*len(b)
+//@   ensures forall j in start..result :: bit(b, j)
+//@   ensures result < 32*len(b) ==> !bit(b, result)
+//@   loop 1:
+//@     invariant start / 32 < index && index <= len(b)
+//@     invariant forall j in start..32*index :: bit(b, j)
